@@ -85,6 +85,11 @@ func (w *World) Exec(s Step) (*CallResult, bool) {
 		x := l[s.C%len(l)]
 		y := w.Put(x.From, x.To, x.Bytes, x.Genuine, x.ID, x.Call, "dup")
 		y.Epoch = x.Epoch
+		// provenance: a copy derives from the same genuine message as its source
+		y.Origin, y.AuthChanged, y.Class = x.Origin, x.AuthChanged, x.Class
+		if y.Origin < 0 {
+			y.Origin = x.ID
+		}
 		w.Fault("dup")
 		return nil, true
 	case "tick":
